@@ -100,6 +100,7 @@ func loadRepo(dir string, overlay map[string][]byte) (*Ctx, error) {
 	embeddedMemo = map[string]bool{}
 	stateEnumMemo = map[*ssa.Function]*stateEnum{}
 	thinGetterMemo = map[*ssa.Function]int{}
+	thinForwardMemo = map[*ssa.Function]*ssa.Function{}
 	permMemo = map[*ssa.Function][]string{}
 	acquiredMemo = map[*ssa.Function]lockset{}
 	// Enumerate functions: package members, methods of every named type (AllFunctions misses methods of
@@ -170,6 +171,7 @@ func loadRepo(dir string, overlay map[string][]byte) (*Ctx, error) {
 	embeddedMemo = map[string]bool{}
 	stateEnumMemo = map[*ssa.Function]*stateEnum{}
 	thinGetterMemo = map[*ssa.Function]int{}
+	thinForwardMemo = map[*ssa.Function]*ssa.Function{}
 	permMemo = map[*ssa.Function][]string{}
 	acquiredMemo = map[*ssa.Function]lockset{}
 	return c, nil
